@@ -1,0 +1,34 @@
+//go:build verif
+
+package secondary
+
+// Contracts for the deductive verifier in /verif (comment-only file; see /verif/DESIGN.md).
+
+//@ type withSecondaryError invariant self.cause != nil && self.secondaryError != nil
+//@ method (*withSecondaryError).Error
+//@   props C10
+//@   ensures result == msg(self.cause)
+//@ method (*withSecondaryError).Cause
+//@   props C07 C10 C14
+//@   ensures result == self.cause
+//@ method (*withSecondaryError).Unwrap
+//@   props C07 C10 C14
+//@   ensures result == self.cause
+
+//@ func WithSecondaryError
+//@   props C10 C07
+//@   ensures (err == nil || additionalErr == nil) ==> result == err
+//@   ensures (err != nil && additionalErr != nil) ==> typeis(result, *withSecondaryError) && result.(*withSecondaryError).cause == err && result.(*withSecondaryError).secondaryError == additionalErr
+
+//@ func CombineErrors
+//@   props C10 C07
+//@   ensures err == nil ==> result == otherErr
+//@   ensures (err != nil && otherErr == nil) ==> result == err
+//@   ensures (err != nil && otherErr != nil) ==> typeis(result, *withSecondaryError) && result.(*withSecondaryError).cause == err && result.(*withSecondaryError).secondaryError == otherErr
+
+//@ func decodeWithSecondaryError
+//@   props C05 C01 C07
+//@   requires cause != nil
+//@   requires typeis(payload, *errorspb.EncodedError) && payload.(*errorspb.EncodedError).Error != nil ==> complete(deref(payload.(*errorspb.EncodedError)))
+//@   ensures (!typeis(payload, *errorspb.EncodedError) || payload.(*errorspb.EncodedError).Error == nil) ==> result == nil
+//@   ensures typeis(payload, *errorspb.EncodedError) && payload.(*errorspb.EncodedError).Error != nil ==> typeis(result, *withSecondaryError) && result.(*withSecondaryError).cause == cause
